@@ -215,7 +215,7 @@ func (m *Font) custom() *Font { m.StdEnc = false; return m }
 var InterestingStrings = []string{
 	"", "x", "(balanced) (parens)", ")(", "((", "))", `back\slash`, `ends with backslash\`, `\(`, `octal\101`,
 	"line1\nline2", "cr\rlf", "crlf\r\nend", "tab\there", "\x00nul\x00", "\xff\x80\xfe high", "100% (c) 1999", " leading and trailing ",
-	"trailing newline\n", "\x7f\x1b\x0c", "three\nlines of\ntext\n\nand an empty one", "\n\n",
+	"trailing newline\n", "\x7f\x1b\x0c", "three\nlines of\ntext\n\nand an empty one", "\n\n", "rev\x018 tab\x0b9 bell\x079 \x1f8\x009",
 }
 
 // ---------------------------------------------------------------------------
